@@ -134,10 +134,6 @@ fn parse_lits(text: &str) -> Result<BTreeMap<i64, Pred>, String> {
         if parts.len() != 3 {
             return Err(format!("bad atomic in {line:?}"));
         }
-        let var: usize = parts[0]
-            .strip_prefix('x')
-            .and_then(|i| i.parse().ok())
-            .ok_or_else(|| format!("unknown variable name in {line:?}"))?;
         let val: i32 = parts[2].parse().map_err(|_| format!("bad value in {line:?}"))?;
         let kind = match parts[1] {
             "<=" => PredKind::Le,
@@ -146,6 +142,19 @@ fn parse_lits(text: &str) -> Result<BTreeMap<i64, Pred>, String> {
             "!=" => PredKind::Ne,
             _ => return Err(format!("bad comparison in {line:?}")),
         };
+        if parts[0] == "Dummy" {
+            // The solver's always-true literal is the 0-1 variable `Dummy` fixed to 1; trivially
+            // true / false predicates (e.g. an equality on a view with a value outside its image)
+            // are written over it. They are read as the constants they denote.
+            let truth = Pred::new(0, kind, val).holds_val(1);
+            let constant = if truth { Pred::new(0, PredKind::Ge, -1_000_000) } else { Pred::new(0, PredKind::Le, -1_000_001) };
+            let _ = m.insert(code, constant);
+            continue;
+        }
+        let var: usize = parts[0]
+            .strip_prefix('x')
+            .and_then(|i| i.parse().ok())
+            .ok_or_else(|| format!("unknown variable name in {line:?}"))?;
         let _ = m.insert(code, Pred::new(var, kind, val));
     }
     Ok(m)
@@ -254,6 +263,7 @@ fn models(tier: Tier) -> Vec<Model> {
             v.extend(gen::m4(0).into_iter().step_by(17));
             v.extend(gen::m5(0).into_iter().step_by(7));
             v.extend(gen::m6(0).into_iter().step_by(3));
+            v.extend(gen::m7(0).into_iter().step_by(11));
         }
         Tier::Thorough => {
             v.extend(gen::m1(1).into_iter().step_by(11));
@@ -262,6 +272,7 @@ fn models(tier: Tier) -> Vec<Model> {
             v.extend(gen::m4(1).into_iter().step_by(5));
             v.extend(gen::m5(1).into_iter().step_by(2));
             v.extend(gen::m6(1));
+            v.extend(gen::m7(1).into_iter().step_by(3));
         }
     }
     v
@@ -292,6 +303,7 @@ impl Property for C06 {
             "for scaffold proofs (no inferences) nogood steps are only checked semantically (entailed by the model), as the format intends them to be completed by a proof processor; for scaffold proofs of LinearSatUnsat runs even that is vacuous because the objective cuts are not in the file (only structure, literal definitions and the conclusion are checked)".into(),
             "the optimality conclusion is read as the dual bound (README of drcp-format): a true statement about all solutions".into(),
             "clauses (Solver::add_clause) cannot carry a tag; their inferences are untagged".into(),
+            "atomics over the solver's constant variable `Dummy` (fixed to 1) are read as the constants true / false".into(),
         ]
     }
     fn extra(&self, tier: Tier) -> Value {
